@@ -552,7 +552,10 @@ with pattern_loop (n : nat) (st : pstate) : M pstate :=
                                  end
                             else common_indent st in
                   if negb ls || nonblank || (match term with TLineFeed => true | _ => false end) then
-                    PState (PHText slice_start end_ indent (role st) :: elements st) (S (n_elements st))
+                    (* a blank line contributes its line end only: the spaces on it are not text (D33) *)
+                    let blank_line := ls && negb nonblank in
+                    PState (PHText (if blank_line then start else slice_start) end_ (if blank_line then 0 else indent) (role st)
+                              :: elements st) (S (n_elements st))
                            (if nonblank then Some (n_elements st) else last_non_blank st) ci (role st)
                   else PState (elements st) (n_elements st) (last_non_blank st) ci (role st)
                 else if ls && (match term with TPlaceableStart => true | _ => false end) then
